@@ -154,6 +154,12 @@ class ConcatView(View):
         d, o = self._loc(i)
         return AbsView(d).key(o)
 
+    def key_q(self, p):
+        """key at position p as a term over a bound variable (no ground instances are created; the
+        PART axiom is stated quantified here because p is bound)"""
+        P = spec.memo(('PART', self.owner), lambda: z3.Function('PART!%d' % self.owner, smt.Int, smt.Int))
+        return smt.KEY(spec.IN(self.owner, P(p)), p - self.S(P(p)))
+
     def kpos(self, k):
         p = self.CPOS(k)
         AX.add(z3.And(p >= -1, p < self.n()))
@@ -164,6 +170,11 @@ class ConcatView(View):
         AX.add(z3.Implies(p < 0, z3.ForAll([j], z3.Implies(z3.And(j >= 0, j < self.m),
                                                             smt.KPOS(spec.IN(self.owner, j), k) < 0),
                                             patterns=[smt.KPOS(spec.IN(self.owner, j), k)])))
+        AX.add(z3.Implies(p >= 0, AbsView(d).key(o) == k))
+        # with unique keys: a key found in part j sits at offset PRE_N(j) + its position in the part
+        AX.add(z3.ForAll([j], z3.Implies(z3.And(j >= 0, j < self.m, smt.KPOS(spec.IN(self.owner, j), k) >= 0, self.keys),
+                                         z3.And(p == self.S(j) + smt.KPOS(spec.IN(self.owner, j), k))),
+                         patterns=[smt.KPOS(spec.IN(self.owner, j), k)]))
         return p
 
 
@@ -185,6 +196,71 @@ class ConcatenateDatasetC(ClassContract):
         it = S.old.item
         return z3.If(it < 0, it + v.n(), it)
 
+    @staticmethod
+    def _keys_inv(S):
+        """keys accumulated so far == keys of the first k parts, in order"""
+        v = self_view(S)
+        ks = S.val.keys
+        if isinstance(ks, ListV):
+            return z3.And(z3.Length(ks.seq) == 0, S.k == 0)
+        if not isinstance(ks, SymSeqV):
+            return smt.F
+        if getattr(S, 'proving', True):
+            p = smt.fresh('kp', smt.Int)          # generic position (universal introduction)
+            el = ks.at(p)
+            if not isinstance(el, KeyV):
+                return smt.F
+            return z3.And(ks.length == v.S(S.k), spec.all_inputs(v.owner, S.k, smt.KEYS),
+                          z3.Implies(z3.And(p >= 0, p < ks.length), el.t == v.key(p)))
+        p = z3.Int('_kp')
+        el = ks.at(p)
+        body = z3.Implies(z3.And(p >= 0, p < ks.length), el.t == v.key_q(p))
+        return z3.And(ks.length == v.S(S.k), spec.all_inputs(v.owner, S.k, smt.KEYS),
+                      z3.ForAll([p], body, patterns=[el.t]))
+
+    @staticmethod
+    def _keys_hooks():
+        def havoc_value(eng, st, name, cur):
+            if name == 'keys':
+                ln = smt.fresh('keys_len', smt.Int)
+                fn = z3.Function('KEYS_SO_FAR!%d' % next(smt._counter), smt.Int, smt.Key)
+                st.pc.append(ln >= 0)
+                return SymSeqV(ln, lambda e: KeyV(fn(e)), 'list')
+            return None
+
+        def builtin_hook(eng, st, name, args, kwargs, node):
+            if name == 'set' and len(args) == 1 and isinstance(args[0], SymSeqV):
+                from pyvc.engine import SetV
+                v = eng.ctx.self_view(eng, st)
+                c = smt.fresh('card', smt.Int)
+                st.pc += [c >= 0, c <= args[0].length, (c == args[0].length) == v.UNIQ]
+                return [(st, SetV(c))]
+            if name == 'collections.Counter':
+                return [(st, OpaqueV('counter'))]
+            return None
+
+        def any_method(eng, st, recv, name, args, kwargs):
+            if isinstance(recv, OpaqueV) and recv.what == 'counter' and name == 'items':
+                return [(st, OpaqueV('counter-items'))]
+            return None
+
+        def iter_obj_descr(eng, st, v):
+            from pyvc.views import Out
+            if isinstance(v, OpaqueV) and v.what == 'counter-items':
+                n = smt.fresh('n_dup', smt.Int)
+                st.pc.append(n >= 0)
+                return n, (lambda k: [Out(smt.T, value=TupleV([KeyV(smt.fresh('dupkey', smt.Key)), IntV(smt.fresh('cnt', smt.Int))]))])
+            return None
+        return dict(havoc_value=havoc_value, builtin_hook=builtin_hook, any_method=any_method, iter_obj_descr=iter_obj_descr)
+
+    @staticmethod
+    def _str_inv(S):
+        o = S.eng.self_oid
+        k = S.old.item
+        j = z3.Int('_gsj')
+        return z3.ForAll([j], z3.Implies(z3.And(j >= 0, j < S.k), smt.KPOS(spec.IN(o, j), k) < 0),
+                         patterns=[smt.KPOS(spec.IN(o, j), k)])
+
     methods = dict(
         __len__=[Variant('len', post=post_len(self_view), props=('C02',))],
         __getitem__=_std_getitem_variants(
@@ -201,6 +277,20 @@ class ConcatenateDatasetC(ClassContract):
             '0.0': lambda S: z3.And(S.out_n == self_view(S).S(S.ks['0']) + S.k,
                                     spec.all_inputs(S.eng.self_oid, S.ks['0'], smt.ITEMS))}),
         **flag_variants())
+
+
+def _concat_extra():
+    C = ConcatenateDatasetC
+    kv = keys_variants(loops={'0': C._keys_inv})
+    for v in kv:
+        v.hooks = C._keys_hooks()
+    C.methods['keys'] = kv
+    sv = Variant('str', params={'item': 'key'}, requires=lambda S: self_view(S).keys,
+                 post=post_getitem_key(self_view), props=('C03',), loops={'1': C._str_inv}, hooks=C._keys_hooks())
+    C.methods['__getitem__'] = list(C.methods['__getitem__']) + [sv]
+
+
+_concat_extra()
 
 
 # -------------------------------------------------------------------- ZipDataset
